@@ -100,13 +100,16 @@ fn main() {
             let schemas = f["schemas"].as_array().unwrap().iter().map(|kv| (anoncreds::data_types::schema::SchemaId::new_unchecked(kv[0].as_str().unwrap()), serde_json::from_value(kv[1].clone()).unwrap())).collect();
             let cred_defs = f["cred_defs"].as_array().unwrap().iter().map(|kv| (anoncreds::data_types::cred_def::CredentialDefinitionId::new_unchecked(kv[0].as_str().unwrap()), serde_json::from_value(kv[1].clone()).unwrap())).collect();
             let req: anoncreds::types::PresentationRequest = serde_json::from_value(f["request"].clone()).unwrap();
+            let rrds: Option<std::collections::HashMap<anoncreds::data_types::rev_reg_def::RevocationRegistryDefinitionId, anoncreds::types::RevocationRegistryDefinition>> = f.get("rev_reg_defs").and_then(|x| x.as_array()).map(|a| a.iter().map(|kv| (anoncreds::data_types::rev_reg_def::RevocationRegistryDefinitionId::new_unchecked(kv[0].as_str().unwrap()), serde_json::from_value(kv[1].clone()).unwrap())).collect());
+            let lists: Option<Vec<anoncreds::types::RevocationStatusList>> = f.get("lists").and_then(|x| x.as_array()).map(|a| a.iter().map(|l| serde_json::from_value(l.clone()).unwrap()).collect());
             let v = std::panic::catch_unwind(std::panic::AssertUnwindSafe(|| {
+                let rr = rrds.as_ref().map(|m| m.iter().map(|(k, v)| (k.clone(), v.clone())).collect::<std::collections::HashMap<_, _>>());
                 if f["format"] == "w3c" {
                     let p: anoncreds::data_types::w3c::presentation::W3CPresentation = serde_json::from_value(f["presentation"].clone()).unwrap();
-                    anoncreds::w3c::verifier::verify_presentation(&p, &req, &schemas, &cred_defs, None, None, None)
+                    anoncreds::w3c::verifier::verify_presentation(&p, &req, &schemas, &cred_defs, rr.as_ref(), lists.clone(), None)
                 } else {
                     let p: anoncreds::types::Presentation = serde_json::from_value(f["presentation"].clone()).unwrap();
-                    anoncreds::verifier::verify_presentation(&p, &req, &schemas, &cred_defs, None, None, None)
+                    anoncreds::verifier::verify_presentation(&p, &req, &schemas, &cred_defs, rr.as_ref(), lists.clone(), None)
                 }
             }));
             outv.push(match v { Err(_) => "P", Ok(Ok(true)) => "T", Ok(Ok(false)) => "F", Ok(Err(_)) => "E" });
